@@ -6,6 +6,7 @@ Copyright 2020 William W. Kimball, Jr. MBA MSIS
 import re
 from typing import Any, List
 
+from yamlpath.exceptions import YAMLPathException
 from yamlpath.enums import (
     AnchorMatches,
     PathSearchMethods,
@@ -110,7 +111,12 @@ class Searches:
             else:
                 matches = haystack_text <= str(needle)
         elif method == PathSearchMethods.REGEX:
-            matcher = re.compile(needle)
+            try:
+                matcher = re.compile(needle)
+            except re.error as ex:
+                raise YAMLPathException(
+                    "Invalid Regular Expression ({})".format(ex),
+                    str(needle)) from ex
             matches = matcher.search(haystack_text) is not None
         else:
             raise NotImplementedError
